@@ -51,8 +51,13 @@ def rule_units(ck, rid="C15.R1"):
     fl = flow_of(f)
     rets = [n for n in fl.cfg.nodes if n.kind == "return"]
     dflt = [r for r in rets if not any(canon(a) == "round_up" and t for a, t in facts_at(fl, r))]
-    ok = bool(dflt) and all(isinstance(fl.expand(r.expr, r), ast.Call) and call_name(fl.expand(r.expr, r)) in ("int", "floor") and
-                            "ceil" not in canon(fl.expand(r.expr, r)) and "round(" not in canon(fl.expand(r.expr, r)) for r in dflt)
+    from ..rules import gexpand, specialise
+
+    def on_default(r):
+        # the value returned when round_up is false: a rounding applied under `if round_up:` before a shared `return int(ts)` folds away
+        return specialise(gexpand(fl, r.expr, r), {"round_up": False})
+    ok = bool(dflt) and all(isinstance(on_default(r), ast.Call) and call_name(on_default(r)) in ("int", "floor") and
+                            "ceil" not in canon(on_default(r)) and "round(" not in canon(on_default(r)) for r in dflt)
     ck.require(ok, rid, f, dflt[0].stmt if dflt else "return int(ts)", ok="period index = floor of the timestamp in periods", bad="the default conversion must truncate (floor), not round",
                sink="timestamp-floor")
     for r in dflt:
@@ -489,14 +494,44 @@ def rule_fit_logic(ck, rid="C15.R6"):
                    bad="batt_cap_fn returns a (capacity, initial charge) pair without testing the initial charge against the -1 `no fit` marker", sink="fit:init-nonneg")
 
 
-def _returns_through(repo, fn, depth=0):
+def _close_over(repo, fn, e, keep=()):
+    """free variables of a nested function stand for what the enclosing function bound them to when the closure was created:
+    names of `e` that the nested function neither takes as parameters nor assigns are expanded in the enclosing function's flow at the
+    `def` statement (temporaries such as `tail = transition_soc - 1` introduced next to the closure), except the names in `keep`"""
+    import copy as _c
+    parent = getattr(fn, "parent", None)
+    if parent is None:
+        return e
+    local = set(fn.params) | {x.id for x in ast.walk(fn.node) if isinstance(x, ast.Name) and isinstance(x.ctx, ast.Store)}
+    pfl = flow_of(parent)
+    at = pfl.cfg.by_stmt.get(id(fn.node))
+    if at is None:
+        at = next((n for n in pfl.cfg.nodes if getattr(n, "stmt", None) is not None and isinstance(n.stmt, ast.FunctionDef) and n.stmt.name == fn.node.name), None)
+    if at is None:
+        return e
+    old_keep = getattr(pfl, "keep", set())
+    pfl.keep = set(keep) | set(old_keep)
+
+    class T(ast.NodeTransformer):
+        def visit_Name(self, n):
+            if isinstance(n.ctx, ast.Load) and n.id not in local and n.id not in keep and pfl.defs_at(at, n.id):
+                return pfl.expand(_c.deepcopy(n), at)
+            return n
+    try:
+        out = T().visit(_c.deepcopy(e))
+    finally:
+        pfl.keep = old_keep
+    return _close_over(repo, parent, out, keep) if getattr(parent, "parent", None) is not None else out
+
+
+def _returns_through(repo, fn, depth=0, keep=("max_dsoc", "stay_dur", "transition_soc", "delta_soc", "requested_energy", "battery_cap")):
     """[(return expression, facts)] of `fn`, looking through returns that merely call another repository function (arguments substituted)"""
     from ..rules import _subst
     fl = flow_of(fn)
     out = []
     for r in [n for n in fl.cfg.nodes if n.kind == "return" and n.expr is not None]:
-        e = fl.expand(r.expr, r)
-        facts = [(fl.expand(a, r), t) for a, t in facts_at(fl, r)]
+        e = _close_over(repo, fn, fl.expand(r.expr, r), keep)
+        facts = [(_close_over(repo, fn, fl.expand(a, r), keep), t) for a, t in facts_at(fl, r)]
         cn = call_name(e) if isinstance(e, ast.Call) else None
         tgt = [f for q, fs in repo.funcs.items() for f in fs if cn and q.split(".")[-1] == cn and f.module == fn.module]
         if isinstance(e, ast.Call) and isinstance(e.func, ast.Name) and len(tgt) == 1 and depth < 3:
